@@ -6,6 +6,7 @@ mod cbox;
 mod cstr;
 mod cview;
 mod feed;
+mod intres;
 mod vec;
 mod waker;
 
@@ -14,7 +15,7 @@ mod waker;
 static GLOBAL: simcore::alloc::SimAlloc = simcore::alloc::SimAlloc;
 
 fn main() {
-    let engines: Vec<&dyn simcore::Engine> = vec![&arc::ArcEngine, &vec::VecEngine, &cstr::CStrEngine, &waker::WakerEngine, &feed::FeedEngine, &cbox::CBoxEngine];
+    let engines: Vec<&dyn simcore::Engine> = vec![&arc::ArcEngine, &vec::VecEngine, &cstr::CStrEngine, &waker::WakerEngine, &feed::FeedEngine, &cbox::CBoxEngine, &intres::IntResEngine];
     let code = simcore::worker::worker_main(&engines);
     if code != 0 {
         std::process::exit(code);
